@@ -38,6 +38,16 @@ def mc(ctx, tier):
     return r
 
 
+def _tests_dir():
+    """src/tests of the repository under test; scratch copies made by
+    bin/mutcheck leave it out, the reference data then come from the
+    unmodified repository"""
+    d = os.path.join(vlib.REPO, "src", "tests")
+    if os.path.exists(os.path.join(d, "compat-V2.vnacal")):
+        return d
+    return os.path.join(os.environ.get("VERIF_BASE_REPO", "/repo"), "src", "tests")
+
+
 def build(ctx):
     lib = vlib.build_lib("san")
     return vlib.build_driver("drv_loadfuzz", SOURCES, lib, ctx.work,
@@ -48,8 +58,7 @@ def _env(ctx):
     tmp = os.path.join(ctx.work, "tmp")
     os.makedirs(tmp, exist_ok=True)
     return {"VT_TMP": tmp,
-            "LF_V2FILE": os.path.join(vlib.REPO, "src", "tests",
-                                      "compat-V2.vnacal")}
+            "LF_V2FILE": os.path.join(_tests_dir(), "compat-V2.vnacal")}
 
 
 def _case_index(cid):
